@@ -309,14 +309,17 @@ impl<T: Qcow2IoOps> Qcow2Dev<T> {
                 // change
                 self.flush_refcount().await?;
 
-                // flush mapping table in-place update
-                self.flush_table(&*l2_table, 0, l2_table.byte_size())
-                    .await?;
-                l2_handle.set_dirty(false);
-
                 // release l2 table, so that this new mapping can be flushed
                 // to disk
                 drop(l2_table);
+
+                // flush mapping table in-place update
+                //
+                // the slice may live in one new l2 table cluster, which has to
+                // be zeroed exactly once before any slice of it is written,
+                // so flush it in the same way as any other dirty slice
+                self.flush_cache_entries(vec![(split.l2_slice_key(info), l2_handle.clone())])
+                    .await?;
 
                 if compressed {
                     // free clusters in original compressed mapping
